@@ -316,27 +316,30 @@ def withdrawVB (owner : Addr) : Bool := owner ≠ ""
 def providersOf (s : State) (owner : Addr) : List Addr :=
   (s.ownerProv.filter (fun p => p.1 = owner)).map (·.2)
 
+/-- the earnings records after a withdrawal and the amount to pay (before any coin moves) -/
+def withdrawRecords (s : State) (owner prov : Addr) : Except Res (State × Nat) :=
+  if prov ≠ "" then
+    if balOf s.earned prov = balOf s.ownerEarned owner then
+      .ok ({ s with earned := Map.del s.earned prov, ownerEarned := Map.del s.ownerEarned owner }, balOf s.earned prov)
+    else if balOf s.ownerEarned owner < balOf s.earned prov then .error (.panic "negative coin amount")
+    else .ok ({ s with earned := Map.del s.earned prov,
+                       ownerEarned := Map.set s.ownerEarned owner (balOf s.ownerEarned owner - balOf s.earned prov) },
+              balOf s.earned prov)
+  else
+    .ok ({ s with earned := (providersOf s owner).foldl (fun m p => Map.del m p) s.earned,
+                  ownerEarned := Map.del s.ownerEarned owner }, balOf s.ownerEarned owner)
+
 def withdraw (s : State) (owner prov : Addr) : Out :=
   if prov ≠ "" ∧ Map.get s.owner prov ≠ some owner then fail s .notAuthorized
   else
-    let O := balOf s.ownerEarned owner
-    let r : Except Res (State × Nat) :=
-      if prov ≠ "" then
-        let E := balOf s.earned prov
-        let s1 := { s with earned := Map.del s.earned prov }
-        if E = O then .ok ({ s1 with ownerEarned := Map.del s1.ownerEarned owner }, E)
-        else if O < E then .error (.panic "negative coin amount")
-        else .ok ({ s1 with ownerEarned := Map.set s1.ownerEarned owner (O - E) }, E)
-      else
-        let s1 := { s with earned := (providersOf s owner).foldl (fun m p => Map.del m p) s.earned }
-        .ok ({ s1 with ownerEarned := Map.del s1.ownerEarned owner }, O)
-    match r with
+    match withdrawRecords s owner prov with
     | .error r => (s, r, [])
     | .ok (s1, amt) =>
-      let dst := (Map.get s.withdraw owner).getD owner
-      if dst = s.cfg.escrow ∨ dst = s.cfg.deposit then fail s .unauthorized
-      else match bankSend s1.bank s.cfg.escrow dst amt with
+      if (Map.get s.withdraw owner).getD owner = s.cfg.escrow ∨ (Map.get s.withdraw owner).getD owner = s.cfg.deposit then
+        fail s .unauthorized
+      else match bankSend s1.bank s.cfg.escrow ((Map.get s.withdraw owner).getD owner) amt with
       | none => fail s .insufficientFunds
-      | some bank' => ({ s1 with bank := bank' }, .ok, if amt = 0 then [] else [.transfer s.cfg.escrow dst amt])
+      | some bank' => ({ s1 with bank := bank' }, .ok,
+          if amt = 0 then [] else [.transfer s.cfg.escrow ((Map.get s.withdraw owner).getD owner) amt])
 
 end SM
